@@ -25,6 +25,7 @@ THEOREMS = [
     "Ural.Props.C11.variant_same_string_same_key_canon",
     "Ural.Props.C11.variant_store_then_query_hits_canon",
     "Ural.Props.C11.variant_same_string_same_key_norm",
+    "Ural.Props.C11.variant_same_print_same_stems_norm",
     "Ural.Props.C11.variant_store_then_query_hits_norm",
     "Ural.Props.C11.variant_same_string_same_key_fp",
     "Ural.Props.C11.variant_store_then_query_hits_fp",
